@@ -78,3 +78,17 @@ Example C10_example :
   exists s ev, exec init [ANewArc 1 7; AClone 0; ATake 0; AToSome 2; ADrop 1; ADrop 3; ADrop 0]%Z = Some (s, ev) /\
     dropcount ev 0 = 1 /\ strong_of s 0 = 0.
 Proof. vm_compute. eauto. Qed.
+
+(* which module's code runs: per operation, the clone (drop) function of module m runs exactly as often as the count of an allocation that
+   module m created goes up (down) — so a handle created elsewhere is never cloned or released by local code.  The tie: case id 210 builds
+   the handles of module 1 through the published {instance, clone_fn, drop_fn} layout with counting functions and compares the number of
+   runs per operation with [calls_of 1] of the model (rows of [arun_calls_raw], lemma [arun_calls_steps]) *)
+Theorem C10_calls_view : forall ops s evs, steps init ops = Some (s, evs) ->
+  Forall (fun ev => forall m, incs_by m ev = incs_on s m ev /\ decs_by m ev = decs_on s m ev) evs.
+Proof. exact calls_view. Qed.
+Print Assumptions C10_calls_view.
+
+Theorem C10_calls_rows : forall ops s rows f, arun_calls_raw s ops = (rows, Some f) ->
+  exists evs, steps s ops = Some (f, evs) /\ odd_rows rows = map (calls_of 1) evs.
+Proof. exact arun_calls_steps. Qed.
+Print Assumptions C10_calls_rows.
